@@ -22,7 +22,7 @@ def plan(tier):
 
 def strategy(tier):
     return st.one_of(machine_spec("suspend", tier), machine_spec("suspend", tier), machine_spec("general", tier),
-                     machine_spec("twins", tier))
+                     machine_spec("twins", tier), machine_spec("branches", tier))
 
 
 run_case = make_run_case({"C10"}, lambda o: "rerun_after_suspension_succeeded" in o.labels
